@@ -2,9 +2,11 @@ package seq
 
 import (
 	"bytes"
+	"context"
 	"encoding/json"
 	"fmt"
 	"io"
+	"net"
 	"runtime"
 
 	"nhooyr.io/websocket"
@@ -170,6 +172,30 @@ func c08ReadOne(conn *websocket.Conn, api string) (r c08Reading) {
 	return r
 }
 
+// c08ReadNetConn reads one message's worth of bytes through the net.Conn adapter:
+// exactly size bytes when the message is within the limit (an empty message is
+// skipped by the adapter), otherwise until the read fails.
+func c08ReadNetConn(nc net.Conn, size int, limit int64) (r c08Reading) {
+	within := limit < 0 || int64(size) <= limit
+	r.panicked = fw.Recover(func() {
+		r.data = c08Scratch[:0]
+		buf := c08Buf[:]
+		for within && len(r.data) < size || !within && len(r.data) <= size+16 {
+			want := len(buf)
+			if within && size-len(r.data) < want {
+				want = size - len(r.data)
+			}
+			n, err := nc.Read(buf[:want])
+			r.data = append(r.data, buf[:n]...)
+			if err != nil {
+				r.err = err
+				return
+			}
+		}
+	})
+	return r
+}
+
 // c08Bound: generous on purpose (pooled flate readers and bufio buffers are
 // 40-64 KiB when the pools are cold; append doubling of the harness itself).
 func c08Bound(delivered int) uint64 { return 4*uint64(delivered) + 1<<20 }
@@ -208,7 +234,7 @@ func c08One(c *fw.Ctx, cs c08Case) {
 			wire = def.Message(payloads[i])
 		}
 		op := byte(frame.OpBinary)
-		if i%2 == 1 {
+		if i%2 == 1 && cs.API != "netconn" {
 			op = frame.OpText
 		}
 		in = append(in, mxEncode(mxSplit(op, masked, cs.Comp != "off", wire, c08Cuts(m.Framing, len(wire), cur))...)...)
@@ -216,9 +242,17 @@ func c08One(c *fw.Ctx, cs c08Case) {
 	t := mxNewTransport(in)
 	conn := mxConn(t, cs.Client, c08CompMode(cs.Comp))
 	defer conn.CloseNow()
+	var nc net.Conn
+	if cs.API == "netconn" {
+		// the adapter lifts the limit when it is created; the application sets its own afterwards
+		nc = websocket.NetConn(context.Background(), conn, websocket.MessageBinary)
+	}
 
 	for i, m := range cs.Msgs {
 		L := limits[i]
+		if nc != nil && i == 0 && !m.SetLimit {
+			conn.SetReadLimit(L)
+		}
 		if m.SetLimit {
 			if p := fw.Recover(func() { conn.SetReadLimit(m.Limit) }); p != "" {
 				c.Violate("C08/panic", desc+": SetReadLimit panicked: "+p, cs)
@@ -226,7 +260,12 @@ func c08One(c *fw.Ctx, cs c08Case) {
 			}
 		}
 		logBefore := t.LogLen()
-		r := c08ReadOne(conn, cs.API)
+		var r c08Reading
+		if nc != nil {
+			r = c08ReadNetConn(nc, m.Size, L)
+		} else {
+			r = c08ReadOne(conn, cs.API)
+		}
 		if r.panicked != "" {
 			c.Violate("C08/panic", fmt.Sprintf("%s: message %d: %s panicked: %s", desc, i, cs.API, r.panicked), cs)
 			return
@@ -386,7 +425,7 @@ func c08DeclaredOverLimit(c *fw.Ctx, cs c08Case) {
 var c08Limits = []int64{0, 1, 2, 125, 126, 4096, c08DefaultLimit, 65536, -1}
 var c08Framings = []string{"one", "split-at-limit", "bytes", "empty-frags"}
 var c08Comps = []string{"off", "zeros", "no-takeover", "bfinal", "stored-open"}
-var c08APIs = []string{"read", "reader"}
+var c08APIs = []string{"read", "reader", "netconn"}
 
 func c08Sizes(L int64, thorough bool) []int {
 	if L < 0 {
